@@ -622,4 +622,28 @@ example := C17b_forge_merkle_sibling cmpQ cmpQ_inj id exQ exQ_accept _ _ rfl _ _
 theorem C17b_koala_root : powMod koalaRoot (2 ^ 24) koalaQ = 1 ∧ powMod koalaRoot (2 ^ 23) koalaQ = koalaQ - 1 := by
   decide +kernel
 
+/-- SPECIFICATION of the prover-supplied tree sizes (`fri consist_nl_*`): the model accepts a re-derived proof only if it
+passes the verifier's checks AND both entries of every step carry `numLeaves = |domain| / 2^i` (the verifier's own domain) -/
+theorem C17b_friSpec_iff (c : FriCtx) (size : Nat) (pr : FriProof) :
+    friSpec c size pr = true ↔
+      friVerify c size pr = true ∧
+      ∀ i, i < (nextPow2 size).log2 → ∃ e0 e1, pr.steps[i]? = some (e0, e1) ∧
+        e0.numLeaves = 8 * nextPow2 size / 2 ^ i ∧ e1.numLeaves = 8 * nextPow2 size / 2 ^ i := by
+  unfold friSpec friShape
+  rw [Bool.and_eq_true, List.all_eq_true]
+  constructor
+  · rintro ⟨hs, hv⟩
+    refine ⟨hv, fun i hi => ?_⟩
+    have := hs i (List.mem_range.mpr hi)
+    cases hst : pr.steps[i]? with
+    | none => simp [hst] at this
+    | some e =>
+      obtain ⟨e0, e1⟩ := e
+      simp only [hst, Bool.and_eq_true, beq_iff_eq] at this
+      exact ⟨e0, e1, rfl, this.1, this.2⟩
+  · rintro ⟨hv, hs⟩
+    refine ⟨fun i hi => ?_, hv⟩
+    obtain ⟨e0, e1, hst, h0, h1⟩ := hs i (List.mem_range.mp hi)
+    simp [hst, h0, h1]
+
 end GV.ArgHash
